@@ -181,6 +181,37 @@ def gen_orbits(ctx, sel, workers, sensitive):
     return out
 
 
+def gen_tiny(ctx, sel, workers):
+    """TLC proves the shrink map's premises on the selected faces and emits the cancellation-free descriptor
+    at M = 1, 2, 5 (the harness must reproduce it in integers before it may use larger M)."""
+    path = os.path.join(ctx.work, "tiny.ndjson")
+    with open(path, "w") as fh:
+        for f in sel:
+            fh.write(json.dumps({"id": f["id"], "dirs": f["dirs"], "full": False}) + "\n")
+    r = ctx.tlc_ok(
+        "AreaCases", _cfg("TinyInit", "TinyNext", ["TinyPremise", "TinyEmit"]), what="shrink map v -> (M-1)(v.c)c + (c.c)v on %d faces: convexity kept, fan descriptor emitted at M=1,2,5" % len(sel), workers=workers, env={"SEL_FILE": path}, timeout=3000
+    )
+    by = {f["id"]: f for f in sel}
+    out, rots = [], None
+    for v in X.prints(r.out):
+        if v[0] != "T":
+            continue
+        t = v[2]
+        f = by[v[1]]
+        if [list(d) for d in t["ex"]] != f["ex"]:
+            raise Machinery("tiny %s: descriptor differs from the generator's" % v[1])
+        rots = [[list(q[0]), list(q[1])] for q in t["rots"]]
+        out.append({"id": v[1], "dirs": f["dirs"], "ex": f["ex"], "fan": {int(M): [list(x) for x in d] for M, d in dict(t["fan"]).items()}})
+    if len(out) != len(sel) or not rots or len(rots) != 24:
+        raise Machinery("tiny: %d emitted for %d selected faces" % (len(out), len(sel)))
+    os.remove(path)
+    return out, rots
+
+
+def _rot_seq(x, k):
+    return x[k:] + x[:k]
+
+
 # ----------------------------------------------------------------------------- stage 4: judging
 JUDGED_KEYS = {
     "face": ["kind", "id", "bucket", "neg", "cneg", "czero", "d", "g", "t", "cx"],
@@ -265,6 +296,7 @@ def run(ctx):
             ("L1", 8, "any", GEN_INVS_FULL + ["GenComplete"]),
             ("D12", 8, "any", GEN_INVS_FULL),
             ("X6", 8, "le65", GEN_INVS_FAST),
+            ("X6o", 8, "le65", GEN_INVS_FAST),
             ("L2", 6, "le65", GEN_INVS_FULL),
             ("X12", 8, "le30", GEN_INVS_FULL + ["GenComplete"]),
             ("D9", 8, "le30", GEN_INVS_FAST),
@@ -276,7 +308,7 @@ def run(ctx):
         plans = [
             ("L1", 8, "any", GEN_INVS_FULL + ["GenComplete"]),
             ("D12", 8, "any", GEN_INVS_FAST),
-            ("X6", 8, "le65", GEN_INVS_FAST),
+            ("X6o", 8, "le65", GEN_INVS_FAST),   # offset patch: the axis point is a corner of its octagons
             ("L2", 4, "le65", GEN_INVS_FAST),
         ]
         closed_names = ["cs2", "cs3", "cuboctahedron", "truncated_cube", "truncated_octahedron", "rhombicuboctahedron"]
@@ -296,7 +328,7 @@ def run(ctx):
     for m in closed:
         for j, f in enumerate(m["faces"]):
             faces.append({"id": "%s:f%d" % (m["id"], j), "patch": m["id"], "dirs": [m["nodes"][v] for v in f], "ex": m["ex"][j], "bucket": m["buckets"][j]})
-    budget = None if thorough else 40000
+    budget = None if thorough else 32000
     if budget and len(faces) > budget:
         # quick tier: a seeded sample, stratified so that rare (patch, size, bucket) classes stay complete
         groups = {}
@@ -327,13 +359,44 @@ def run(ctx):
         g = list(groups[k])
         rng.shuffle(g)
         sel += [dict(f, full=True) for f in g[:per]]
-        sel += [dict(f, full=False) for f in g[per : per + per_rot]]
-    orbits = gen_orbits(ctx, sel, w_big, sensitive=True)
+        # rotations only, of a start-corner shift of the face (TLC re-derives the shifted descriptor and it is
+        # compared with the shifted generator's): every other record puts the corner nearest to the +x axis
+        # (the point the rotations carry onto the poles and the antimeridian) LAST, the rest shift at random
+        for q, f in enumerate(g[per : per + per_rot]):
+            n = len(f["dirs"])
+            if q % 2 == 0:
+                near = max(range(n), key=lambda c: f["dirs"][c][0] / (sum(z * z for z in f["dirs"][c]) ** 0.5))
+                kk = (near + 1) % n
+            else:
+                kk = rng.randrange(n)
+            sel.append(dict(f, id="%s@%d" % (f["id"], kk), dirs=_rot_seq(f["dirs"], kk), ex=_rot_seq(f["ex"], kk), full=False))
+    # ---- 3b. tiny faces (exact shrink map) and coordinate provenance
+    tiny_src = [f for f in faces if f["patch"] in ("X6", "X6o", "X12")]
+    rng.shuffle(tiny_src)
+    tiny_src.sort(key=lambda f: len(f["dirs"]))          # all sizes: take round-robin by size
+    by_n = {}
+    for f in tiny_src:
+        by_n.setdefault(len(f["dirs"]), []).append(f)
+    n_tiny = 600 if thorough else 120
+    tiny_sel = [f for n in sorted(by_n) for f in by_n[n][: n_tiny // len(by_n)]]
+    with ThreadPoolExecutor(max_workers=2) as tp:
+        fut_orb = tp.submit(gen_orbits, ctx, sel, w_big, True)
+        fut_tiny = tp.submit(lambda: (time.sleep(0.07), gen_tiny(ctx, tiny_sel, w_small))[1])
+        orbits = fut_orb.result()
+        tiny, rotseq = fut_tiny.result()
+    prov_sel = [f for f in faces if not f["patch"].startswith("closed:")]
+    rng.shuffle(prov_sel)
+    prov_sel = prov_sel[: 12000 if thorough else 2400]
     # ---- 4. replay
     t0 = time.time()
     face_recs = _flatten(pmap(X.bulk_chunk, [{"faces": c} for c in _chunks(faces, 400)]))
     orbit_recs = _flatten(pmap(X.orbit_chunk, [{"orbits": c} for c in _chunks(orbits, 8)]))
     mesh_recs = _flatten(pmap(X.mesh_case, closed, chunk=1))
+    Ms = [100, 1000, 10000, 100000]      # 6M / 12M lattice units to the axis: faces from ~1e-2 down to ~1e-6 rad across
+    targets = [[1, 0, 0], [0, 0, 1], [-1, 0, 0], [0, 0, -1]]
+    tiny_recs = _flatten(pmap(X.tiny_chunk, [{"faces": c, "rots": rotseq, "Ms": Ms, "targets": targets} for c in _chunks(tiny, 10)]))
+    prov_recs = _flatten(pmap(X.prov_chunk, [{"faces": c} for c in _chunks(prov_sel, 300)]))
+    face_recs = face_recs + tiny_recs + prov_recs
     cache_meshes = [
         {"id": catalog.eid(e), "nodes": e["nodes"], "faces": e["faces"]}
         for e in catalog.entries(name=["cuboctahedron", "truncated_cube"], rot=[0, 7], cut=[0, 3])
@@ -370,8 +433,11 @@ def run(ctx):
             sig = {"kind": kind, "bucket": r["bucket"]}
             if clause == "CartesianInputAgrees":
                 sig = {"cart": cart}
-            if kind == "face":
+            if kind == "face" and rid in by_id:
                 rp = {"kind": "face", "face": by_id[rid]}
+            elif kind == "face":
+                base = rid.split(":", 1)[1].split("|")[0]
+                rp = {"kind": "derived", "id": rid, "face": by_id.get(base), "dirs": r.get("dirs"), "M": r.get("M"), "to": r.get("to")}
             elif kind == "orbit":
                 rp = {"kind": "orbit", "orbit": orb_by_id[rid]}
             else:
@@ -408,6 +474,15 @@ def run(ctx):
             w[0] = max(w[0], r["d"][0])
             w[1] = max(w[1], r["d"][1])
     ctx.note("worst_default_error_q(1e-13,1e-6)", worst)
+    tw = {}
+    for r in tiny_recs:
+        if "error" not in r:
+            w = tw.setdefault("M=%d" % r["M"], {"default": [0, 0], "highest": [0, 0], "n": 0})
+            w["default"] = X.qmax([w["default"], r["d"]])
+            w["highest"] = X.qmax([w["highest"], r["g"][-1], r["t"][-1]])
+            w["n"] += 1
+    ctx.note("tiny_faces_worst_q(1e-13,1e-6)", tw)
+    ctx.note("provenance_records", len(prov_recs))
     for r in face_recs[:1] + orbit_recs[:1] + mesh_recs[:1]:
         ctx.sample({k: v for k, v in r.items() if k != "subs"})
     if traces:
@@ -439,6 +514,8 @@ def replay(path):
             rec = X.mesh_case(rp["mesh"])
         elif rp["kind"] == "history":
             rec = X.history_case(rp["item"])
+        elif rp["kind"] == "derived" and rp.get("face") and rp["id"].split(":")[0] in ("both", "xyz"):
+            rec = [x for x in X.prov_chunk({"faces": [rp["face"]]}) if x.get("id") == rp["id"]]
         else:
             rec = rp
         print(json.dumps(rec, default=str)[:2000])
